@@ -9,4 +9,5 @@ func run(r *core.Run) {
 	runLenEnc(r)
 	runPg(r)
 	runMysql(r)
+	runBytea(r)
 }
